@@ -984,7 +984,7 @@ class _Tie:
             elif v < 0.16:
                 aggr, kind = "median", "fault:median on real data"
             elif v < 0.19:
-                amp_kind, kind = 2, "fault:ndarray amplitudes"
+                amp_kind, kind, w = 2, "fault:ndarray amplitudes", None
             self.value_case(kind, ntx, nrx, pairs, ns, dt, t0, tt, ltx, lrx, atx, arx, w, fill, interp, aggr, prev, amp_kind)
 
     # -- evaluation in Coq ---------------------------------------------------------------------------------------------------------------
